@@ -141,7 +141,9 @@ func c24Opaque(v ssa.Value) bool {
 			_, isAlloc := x.X.(*ssa.Alloc)
 			return isAlloc
 		}
-	case *ssa.Lookup, *ssa.Index:
+	case *ssa.Lookup, *ssa.Index, *ssa.Call, *ssa.Extract, *ssa.BinOp:
+		// element of a container, or a value computed by a call / an operator the
+		// rules do not interpret
 		return true
 	}
 	return false
@@ -592,27 +594,35 @@ func c24SendPay(c *an.Check, prefix string, fr *c24Frame, call ssa.CallInstructi
 			c.Unknown("C24.R1", prefix+" SendPay route", lpos, "hop 0 of the route literal is never written")
 			continue
 		}
-		fields, fok := c24StructFields(hop)
+		ffields, fok := c24StructFieldsFr(w, hop, lit.fr, 0)
 		if !fok {
-			c.Unknown("C24.R1", prefix+" SendPay route", lpos, "the hop is not a plain composite literal")
+			c.Unknown("C24.R1", prefix+" SendPay route", lpos, "the hop is not a plain composite literal (nor one returned by an in-module helper)")
 			continue
 		}
+		fv := func(name string) (ssa.Value, *c24Frame) {
+			if x, ok := ffields[name]; ok {
+				return x.v, x.fr
+			}
+			return nil, lit.fr
+		}
 		// Id
-		idRoot, iok := c24FieldOf(w, fields["Id"], "DecodedBolt11", "Payee")
-		c24Verdict(c, iok && lit.fr.resolve(idRoot).same(dec), fields["Id"] != nil && c24Opaque(c24Strip(fields["Id"])), "C24.R1", prefix+" hop.Id", lpos, "hop destination is the payee of the decoded invoice",
-			"hop.Id is "+c24DescribeField(w, lit.fr, fields["Id"])+", not Payee of the invoice decoded from the payreq parameter")
+		idV, idFr := fv("Id")
+		idRoot, iok := c24FieldOf(w, idV, "DecodedBolt11", "Payee")
+		c24Verdict(c, iok && idFr.resolve(idRoot).same(dec), idV != nil && c24Opaque(idFr.resolve(idV).v), "C24.R1", prefix+" hop.Id", lpos, "hop destination is the payee of the decoded invoice",
+			"hop.Id is "+c24DescribeField(w, idFr, idV)+", not Payee of the invoice decoded from the payreq parameter")
 		// AmountMsat
-		aRoot, aok := c24FieldOf(w, fields["AmountMsat"], "DecodedBolt11", "AmountMsat")
-		c24Verdict(c, aok && lit.fr.resolve(aRoot).same(dec), fields["AmountMsat"] != nil && c24Opaque(c24Strip(fields["AmountMsat"])), "C24.R1", prefix+" hop.AmountMsat", lpos, "hop amount is the amount of the decoded invoice",
-			"hop.AmountMsat is "+c24DescribeField(w, lit.fr, fields["AmountMsat"])+", not AmountMsat of the decoded invoice")
+		amV, amFr := fv("AmountMsat")
+		aRoot, aok := c24FieldOf(w, amV, "DecodedBolt11", "AmountMsat")
+		c24Verdict(c, aok && amFr.resolve(aRoot).same(dec), amV != nil && c24Opaque(amFr.resolve(amV).v), "C24.R1", prefix+" hop.AmountMsat", lpos, "hop amount is the amount of the decoded invoice",
+			"hop.AmountMsat is "+c24DescribeField(w, amFr, amV)+", not AmountMsat of the decoded invoice")
 		// ShortChannelId
-		sv := fields["ShortChannelId"]
+		sv, svFr := fv("ShortChannelId")
 		cons := prefix + " hop.ShortChannelId"
 		if sv == nil {
 			c.Bad("C24.R1", cons, lpos, "the hop has no ShortChannelId: the node is free to choose the channel")
 			continue
 		}
-		sres := lit.fr.resolve(sv)
+		sres := svFr.resolve(sv)
 		if sc, isCall := sres.v.(*ssa.Call); isCall && clnStyle != nil && sc.Common().StaticCallee() == clnStyle && len(sc.Call.Args) == 1 {
 			inner := sres.fr.resolve(sc.Call.Args[0])
 			c24Verdict(c, inner.entryParam() == c24ChannelParam, c24Opaque(inner.v), "C24.R1", cons, lpos, "ClnStyle(channel parameter)",
@@ -625,6 +635,89 @@ func c24SendPay(c *an.Check, prefix string, fr *c24Frame, call ssa.CallInstructi
 	}
 }
 
+// c24StructFieldsFr is c24StructFields with frames: a struct value returned by an
+// in-module helper (`elem = mkHop(a, b)`, helper returns a composite literal) is
+// looked through, its field values living in the helper's frame.
+func c24StructFieldsFr(w *an.World, addr ssa.Value, fr *c24Frame, depth int) (map[string]c24Val, bool) {
+	out := map[string]c24Val{}
+	if addr.Referrers() == nil {
+		return out, true
+	}
+	ok := true
+	merge := func(sub map[string]c24Val, sok bool) {
+		for k, v := range sub {
+			if old, dup := out[k]; dup && !(old.v == v.v && c24SameFrame(old.fr, v.fr)) {
+				ok = false
+			}
+			out[k] = v
+		}
+		ok = ok && sok
+	}
+	for _, r := range *addr.Referrers() {
+		switch x := r.(type) {
+		case *ssa.FieldAddr:
+			if x.X != addr || x.Referrers() == nil {
+				continue
+			}
+			name := an.FieldName(addr.Type(), x.Field)
+			if i := strings.LastIndex(name, "."); i >= 0 {
+				name = name[i+1:]
+			}
+			for _, rr := range *x.Referrers() {
+				if s, isS := rr.(*ssa.Store); isS && s.Addr == x {
+					if _, dup := out[name]; dup {
+						ok = false
+					}
+					out[name] = c24Val{s.Val, fr}
+				}
+			}
+		case *ssa.Store:
+			if x.Addr != addr {
+				continue
+			}
+			switch y := x.Val.(type) {
+			case *ssa.UnOp:
+				if al, isAl := y.X.(*ssa.Alloc); isAl && y.Op == token.MUL {
+					merge(c24StructFieldsFr(w, al, fr, depth+1))
+					continue
+				}
+				ok = false
+			case *ssa.Call:
+				cal := y.Common().StaticCallee()
+				if cal == nil || cal.Blocks == nil || !w.InModule(cal) || depth >= 3 {
+					ok = false
+					continue
+				}
+				sub := &c24Frame{fn: cal, site: y, up: fr}
+				rets := an.Returns(cal)
+				if len(rets) == 0 {
+					ok = false
+				}
+				for _, ret := range rets {
+					if len(ret.Results) != 1 {
+						ok = false
+						continue
+					}
+					ld, isLd := ret.Results[0].(*ssa.UnOp)
+					if !isLd || ld.Op != token.MUL {
+						ok = false
+						continue
+					}
+					al, isAl := ld.X.(*ssa.Alloc)
+					if !isAl {
+						ok = false
+						continue
+					}
+					merge(c24StructFieldsFr(w, al, sub, depth+1))
+				}
+			default:
+				ok = false
+			}
+		}
+	}
+	return out, ok
+}
+
 func c24DescribeField(w *an.World, fr *c24Frame, v ssa.Value) string {
 	if v == nil {
 		return "unset"
@@ -632,7 +725,10 @@ func c24DescribeField(w *an.World, fr *c24Frame, v ssa.Value) string {
 	return c24Describe(w, fr.resolve(v))
 }
 
-// c24Normaliser checks lightning.Scid.ClnStyle itself: ReplaceAll(s, ":", "x").
+// c24Normaliser checks lightning.Scid.ClnStyle itself: it must rewrite ':' to
+// 'x' — strings.ReplaceAll(s, ":", "x") or a strings.Replacer built from
+// (":", "x"). A different constant pair is a violation; any other way of
+// computing the result is "cannot decide".
 func c24Normaliser(c *an.Check) {
 	w := c.W
 	fn := w.Func("lightning", "(Scid).ClnStyle")
@@ -641,21 +737,134 @@ func c24Normaliser(c *an.Check) {
 		return
 	}
 	cons := w.FuncName(fn)
+	pos := w.Pos(fn.Pos())
 	rets := an.Returns(fn)
-	ok := len(rets) > 0
-	for _, r := range rets {
-		call, isCall := c24Strip(r.Results[0]).(*ssa.Call)
-		if !isCall || w.Info(call).Name != "func:strings.ReplaceAll" || len(call.Call.Args) != 3 {
-			ok = false
-			continue
-		}
-		from, _ := an.ConstString(call.Call.Args[1])
-		to, _ := an.ConstString(call.Call.Args[2])
-		if c24ParamIdx(fn, c24Strip(call.Call.Args[0])) != 0 || from != ":" || to != "x" {
-			ok = false
+	if len(rets) == 0 {
+		c.Unknown("C24.R1", cons, pos, "ClnStyle never returns")
+		return
+	}
+	verdict, why := "ok", ""
+	worse := func(v, y string) {
+		if v == "bad" || (v == "unknown" && verdict == "ok") {
+			verdict, why = v, y
 		}
 	}
-	c.Decide(ok, "C24.R1", cons, w.Pos(fn.Pos()), "returns strings.ReplaceAll(receiver, \":\", \"x\")", "ClnStyle does not return strings.ReplaceAll(receiver, \":\", \"x\"): the route would name a channel id CLN does not know")
+	judge := func(pairs []string, known bool) {
+		switch {
+		case !known:
+			worse("unknown", "the replacement pairs are not constants")
+		case len(pairs) == 2 && pairs[0] == ":" && pairs[1] == "x":
+		default:
+			worse("bad", fmt.Sprintf("ClnStyle rewrites %q instead of \":\" -> \"x\": the route would name a channel id CLN does not know", pairs))
+		}
+	}
+	for _, r := range rets {
+		call, isCall := c24Strip(r.Results[0]).(*ssa.Call)
+		if !isCall {
+			worse("unknown", "the result is not a call of a strings replacement function")
+			continue
+		}
+		name := w.Info(call).Name
+		args := call.Call.Args
+		switch {
+		case name == "func:strings.ReplaceAll" && len(args) == 3:
+			if c24ParamIdx(fn, c24Strip(args[0])) != 0 {
+				worse("unknown", "ReplaceAll is not applied to the receiver")
+				continue
+			}
+			from, ok1 := an.ConstString(args[1])
+			to, ok2 := an.ConstString(args[2])
+			judge([]string{from, to}, ok1 && ok2)
+		case name == "func:(*strings.Replacer).Replace" && len(args) == 2:
+			if c24ParamIdx(fn, c24Strip(args[1])) != 0 {
+				worse("unknown", "Replace is not applied to the receiver")
+				continue
+			}
+			pairs, known := c24ReplacerPairs(w, args[0])
+			judge(pairs, known)
+		default:
+			worse("unknown", "the result is computed by "+name)
+		}
+	}
+	switch verdict {
+	case "ok":
+		c.OK("C24.R1", cons, pos, "rewrites \":\" to \"x\" in the receiver")
+	case "bad":
+		c.Bad("C24.R1", cons, pos, why)
+	default:
+		c.Unknown("C24.R1", cons, pos, "cannot interpret ClnStyle: "+why)
+	}
+}
+
+// c24ReplacerPairs: v is a *strings.Replacer loaded from a package-level variable
+// that is assigned exactly once, from strings.NewReplacer(constants...).
+func c24ReplacerPairs(w *an.World, v ssa.Value) ([]string, bool) {
+	ld, ok := c24Strip(v).(*ssa.UnOp)
+	if !ok || ld.Op != token.MUL {
+		return nil, false
+	}
+	g, ok := ld.X.(*ssa.Global)
+	if !ok {
+		return nil, false
+	}
+	var stored []ssa.Value
+	for _, f := range w.SrcFuncs(nil) {
+		for _, b := range f.Blocks {
+			for _, in := range b.Instrs {
+				if st, ok := in.(*ssa.Store); ok && st.Addr == g {
+					stored = append(stored, st.Val)
+				}
+			}
+		}
+	}
+	if init := g.Pkg.Func("init"); init != nil {
+		for _, b := range init.Blocks {
+			for _, in := range b.Instrs {
+				if st, ok := in.(*ssa.Store); ok && st.Addr == g {
+					dup := false
+					for _, x := range stored {
+						if x == st.Val {
+							dup = true
+						}
+					}
+					if !dup {
+						stored = append(stored, st.Val)
+					}
+				}
+			}
+		}
+	}
+	if len(stored) != 1 {
+		return nil, false
+	}
+	call, ok := stored[0].(*ssa.Call)
+	if !ok || w.Info(call).Name != "func:strings.NewReplacer" || len(call.Call.Args) != 1 {
+		return nil, false
+	}
+	sl, ok := call.Call.Args[0].(*ssa.Slice)
+	if !ok {
+		return nil, false
+	}
+	al, ok := sl.X.(*ssa.Alloc)
+	if !ok {
+		return nil, false
+	}
+	n, elems, eok := c24Elems(al)
+	if !eok {
+		return nil, false
+	}
+	out := make([]string, n)
+	for i := int64(0); i < n; i++ {
+		if elems[i] == nil {
+			return nil, false
+		}
+		s, ok := an.ConstString(c24StoredTo(elems[i]))
+		if !ok {
+			return nil, false
+		}
+		out[i] = s
+	}
+	return out, true
 }
 
 // ---- R2: LND SendPaymentV2 ------------------------------------------------------------------
@@ -711,7 +920,11 @@ func c24SendPaymentV2(c *an.Check, prefix string, fr *c24Frame, call ssa.CallIns
 		if fields["MaxParts"] != nil {
 			mp, isC = an.ConstInt(fields["MaxParts"])
 		}
-		c.Decide(isC && mp == 1, "C24.R2", prefix+" request.MaxParts", lpos, "MaxParts = 1", fmt.Sprintf("MaxParts is %s: lnd may split the payment into several HTLCs (0 means its default of 16)", c24ConstDesc(w, fields["MaxParts"])))
+		if fields["MaxParts"] != nil && !isC {
+			c.Unknown("C24.R2", prefix+" request.MaxParts", lpos, "MaxParts is not a constant: "+w.Term(fields["MaxParts"]))
+		} else {
+			c.Decide(isC && mp == 1, "C24.R2", prefix+" request.MaxParts", lpos, "MaxParts = 1", fmt.Sprintf("MaxParts is %s: lnd may split the payment into several HTLCs (0 means its default of 16)", c24ConstDesc(w, fields["MaxParts"])))
+		}
 		// OutgoingChanIds
 		var channel c24Val
 		cons := prefix + " request.OutgoingChanIds"
@@ -783,6 +996,7 @@ func c24FactsAbove(w *an.World, b *ssa.BasicBlock, fr *c24Frame) []c24Fact {
 	for fr != nil && b != nil {
 		for _, f := range w.FactsDominatingBlock(b) {
 			out = append(out, c24Fact{f, fr})
+			out = append(out, c24HelperFacts(w, f, fr, 0)...)
 		}
 		if fr.site == nil {
 			break
@@ -791,6 +1005,107 @@ func c24FactsAbove(w *an.World, b *ssa.BasicBlock, fr *c24Frame) []c24Fact {
 		fr = fr.up
 	}
 	return out
+}
+
+// c24HelperFacts: the fact says that an in-module helper returned a nil error
+// (`if err := check(a, b); err != nil { return }`) or true (`if !matches(a, b) {
+// return }`): the facts that hold on every such return of the helper then hold
+// too, in the helper's frame (parameters bound to the call's arguments).
+func c24HelperFacts(w *an.World, f an.Fact, fr *c24Frame, depth int) []c24Fact {
+	out, _ := c24HelperFacts2(w, f, fr, depth)
+	return out
+}
+
+// c24HelperFacts2 also says whether the helper behind the fact (if any) could be interpreted.
+func c24HelperFacts2(w *an.World, f an.Fact, fr *c24Frame, depth int) ([]c24Fact, bool) {
+	if depth >= 2 {
+		return nil, false
+	}
+	var call *ssa.Call
+	idx := 0
+	wantTrue := false
+	switch {
+	case f.NonNum && f.Rel == "==" && f.LV != nil && f.RV != nil && (an.IsNilConst(f.LV) || an.IsNilConst(f.RV)):
+		v := f.LV
+		if an.IsNilConst(v) {
+			v = f.RV
+		}
+		switch x := v.(type) {
+		case *ssa.Call:
+			call = x
+		case *ssa.Extract:
+			call, _ = x.Tuple.(*ssa.Call)
+			idx = x.Index
+		}
+	case f.Rel == "true":
+		call, _ = f.Cond.(*ssa.Call)
+		wantTrue = true
+	}
+	if call == nil {
+		return nil, true
+	}
+	cal := call.Common().StaticCallee()
+	if cal == nil || cal.Blocks == nil || !w.InModule(cal) {
+		return nil, cal == nil || !w.InModule(cal)
+	}
+	sub := &c24Frame{fn: cal, site: call, up: fr}
+	var sets [][]c24Fact
+	for _, r := range an.Returns(cal) {
+		if idx >= len(r.Results) {
+			return nil, false
+		}
+		res := r.Results[idx]
+		var set []c24Fact
+		if wantTrue {
+			if cst, ok := res.(*ssa.Const); ok {
+				if cst.Value != nil && cst.Value.String() == "false" {
+					continue
+				}
+			} else if bo, ok := res.(*ssa.BinOp); ok && bo.Op == token.EQL {
+				set = append(set, c24Fact{an.Fact{NonNum: true, Rel: "==", LV: bo.X, RV: bo.Y, L: w.Term(bo.X), R: w.Term(bo.Y), Cond: bo}, sub})
+			} else {
+				return nil, false // a result we cannot interpret may be true
+			}
+		} else {
+			if !an.IsNilConst(res) {
+				if _, isConst := res.(*ssa.Const); !isConst {
+					// a non-constant error: may be nil on a path we cannot see
+					if _, isPhi := res.(*ssa.Phi); isPhi {
+						return nil, false
+					}
+				}
+				continue
+			}
+		}
+		for _, hf := range w.FactsDominatingBlock(r.Block()) {
+			set = append(set, c24Fact{hf, sub})
+			set = append(set, c24HelperFacts(w, hf, sub, depth+1)...)
+		}
+		sets = append(sets, set)
+	}
+	if len(sets) == 0 {
+		return nil, true
+	}
+	// facts common to all accepting returns (same branch edge, or same synthetic comparison)
+	var out []c24Fact
+	for _, cand := range sets[0] {
+		inAll := true
+		for _, other := range sets[1:] {
+			found := false
+			for _, o := range other {
+				if o.f.Cond == cand.f.Cond && o.f.Edge == cand.f.Edge && o.f.Rel == cand.f.Rel {
+					found = true
+				}
+			}
+			if !found {
+				inAll = false
+			}
+		}
+		if inAll {
+			out = append(out, cand)
+		}
+	}
+	return out, true
 }
 
 func c24DestGuard(c *an.Check, prefix string, lit c24Lit, fr *c24Frame, call ssa.CallInstruction, channel c24Val) {
@@ -837,6 +1152,50 @@ func c24DestGuard(c *an.Check, prefix string, lit c24Lit, fr *c24Frame, call ssa
 	var all []an.Fact
 	for _, cf := range facts {
 		all = append(all, cf.f)
+	}
+	// a guard we cannot interpret: some dominating test is the result of an in-module
+	// helper that was handed the outgoing channel or a decoded invoice
+	for _, cf := range facts {
+		for _, v := range []ssa.Value{cf.f.Cond, cf.f.LV, cf.f.RV} {
+			var hc *ssa.Call
+			switch x := v.(type) {
+			case *ssa.Call:
+				hc = x
+			case *ssa.Extract:
+				hc, _ = x.Tuple.(*ssa.Call)
+			}
+			if hc == nil {
+				continue
+			}
+			cal := hc.Common().StaticCallee()
+			if cal == nil || !w.InModule(cal) {
+				continue
+			}
+			onPath := false
+			for _, chain := range []*c24Frame{lit.fr, fr} {
+				for x := chain; x != nil; x = x.up {
+					if x.fn == cal {
+						onPath = true // a function the rule has looked into itself
+					}
+				}
+			}
+			if _, interpreted := c24HelperFacts2(w, cf.f, cf.fr, 0); onPath || interpreted {
+				continue
+			}
+			for _, a := range hc.Call.Args {
+				ra := cf.fr.resolve(a)
+				isDec := false
+				if dc := c24CallOf(ra.v, 0); dc != nil {
+					if m, is := c24NodeAPI(w, w.Info(dc)); is && m == "DecodePayReq" {
+						isDec = true
+					}
+				}
+				if isDec || (channel.v != nil && ra.same(channel)) {
+					c.Unknown("C24.R2", cons, pos, "the request is guarded by "+w.FuncName(cal)+", which is given the invoice or the outgoing channel, but the rule cannot read the destination test out of it")
+					return
+				}
+			}
+		}
 	}
 	detail := "no dominating test `invoice destination == RemotePubkey of the outgoing channel` (invoice decoded from the payreq parameter, same channel as OutgoingChanIds): the node would pay an invoice of a third party over the swap channel. Facts that do hold: " + an.DescribeFacts(all)
 	if len(seen) > 0 {
